@@ -41,7 +41,8 @@ def leaf(n, label, items, flag):
     return marker
 '''
 VALUE_EXPRS = [None, None, '', 'n', 'n * 2', 'len(items)', 'weight(n)', 'FACTOR', 'float(n) / 4', 'flag', '-n',
-               'label', 'items', 'None', 'nope_zz', '1/0', 'n / (n - n)', 'sum(items)', '10 ** 3', 'float("inf")']
+               'label', 'items', 'None', 'nope_zz', '1/0', 'n / (n - n)', 'sum(items)', '10 ** 3', 'float("inf")',
+               '10 ** 400', '(n + 1) * 10 ** 400', 'complex(n, 1)', '[n]', 'b"5"']
 LABEL_EXPRS = ['label', 'n', 'REGION', 'len(items)', 'label.upper()', 'flag', 'weight(n)', 'nope_zz', 'items[99]']
 STATICS = ['fixed', 'eu', 7, True, 1.5, '']
 
@@ -122,7 +123,8 @@ def case_metric(seed, out, spec, wd):
                                    for k, how, v in d['labels']], d['expr'], d['namespace'], d['help'], d['unit'])
                  for d in defs]
         trigs = [line_trigger('tp17', base, line, args, [], mdefs)]
-    procs = [plugins.make('Proc%d' % i, ['met'], order=i)() for i in range(nproc)]
+    procs = [plugins.make('Proc%d' % i, ['met'], order=i, falsy=r.pick([None, None, None, 'len', 'bool']))()
+             for i in range(nproc)]
     rig = Rig(custom={}, host_dir=wd, plugins=[])
     rig.install(trigs)
     nhits = r.randrange(1, 5)
